@@ -152,6 +152,8 @@ pub struct Oracles {
     /// Key of the first panic in the current lifetime (cause of later hangs).
     pub first_panic_key: Option<String>,
     /// E2: injected RPC faults in this run; watcher bookkeeping.
+    pub startup_aborted: bool,
+    pub notif_panics: u64,
     pub e2_faults: u64,
     pub watch_told: u32,
     pub watch_last: u32,
@@ -174,6 +176,8 @@ impl Oracles {
             probe_results: Vec::new(),
             quick_read_faults: false,
             first_panic_key: None,
+            startup_aborted: false,
+            notif_panics: 0,
             e2_faults: 0,
             watch_told: 0,
             watch_last: 0,
@@ -240,6 +244,7 @@ impl Oracles {
                     | ("C06", "mpp-deadline-missed")
                     | ("C04", "maxdelay-too-large")
                     | ("C04", "maxdelay-above-policy")
+                    | ("C04", "maxdelay-missing")
                     | ("C12", "first-htlc-not-rejected-with-policy")
             )
         {
@@ -289,6 +294,8 @@ impl Oracles {
 
     pub fn on_boot(&mut self, _w: &World) {
         self.first_panic_key = None;
+        self.startup_aborted = false;
+        self.notif_panics = 0;
         self.entries.clear();
         self.expect_now.clear();
         self.step_new_rpcs.clear();
@@ -334,7 +341,7 @@ impl Oracles {
                 format!("the plugin did not acknowledge init for a valid configuration: {:?} (main returned {:?})", w.cfg.raw_opts, w.main_result),
             );
         }
-        if refused && w.main_result.is_none() {
+        if refused && w.main_result.is_none() && !self.startup_aborted {
             self.violate(
                 w,
                 "C19",
@@ -365,6 +372,22 @@ impl Oracles {
     }
 
     pub fn on_panic(&mut self, w: &World, msg: &str) {
+        if !w.init_acked && super::sched::config_must_refuse(&w.cfg) == Some(true) {
+            // Aborting during start-up on an unusable option value is a way of
+            // refusing to start; no request handler is involved (C06 n/a).
+            self.hit("c19.refused-by-abort");
+            self.startup_aborted = true;
+            return;
+        }
+        if msg.contains("src/cln_plugin/mod.rs") && self.notif_panics < w.malformed_notifications_sent {
+            self.notif_panics += 1;
+            // The detached task of the block_added subscription unwraps its
+            // handler's result; an undecodable notification kills that task
+            // only. No hook call is involved and the plugin must go on (the
+            // exit / unanswered rules watch that).
+            self.hit("panic-in-notification-task");
+            return;
+        }
         self.panics += 1;
         let key = panic_key(msg);
         if self.first_panic_key.is_none() {
@@ -1517,6 +1540,28 @@ impl Oracles {
                                 w.node.pay_rpc_outstanding(&x)
                             ),
                         );
+                    }
+                }
+                // A trampoline HTLC that starts a new set cannot be decided before
+                // the stored state was read; an answer in its own delivery step
+                // means it was refused on the spot (e.g. the self-route-hint
+                // gate firing although self hints are allowed).
+                if let Some(e) = self.entries.get(&x) {
+                    let first_of_new_entry = e.members.first() == Some(&ci)
+                        && e.created_step == w.step
+                        && c.delivered_step == Some(w.step)
+                        && e.fetch_reply.is_none();
+                    if first_of_new_entry && !matches!(ans, Answer::Resolve(_)) {
+                        let detail = format!(
+                            "well-formed trampoline htlc {} (no rejection applies, self route hints {}) was answered {} in its delivery step, before any stored state was read",
+                            c.hid,
+                            if w.cfg.no_self_hints { "disallowed" } else { "allowed" },
+                            super::engine::short_answer(&ans)
+                        );
+                        self.violate(w, "C10", "refused-on-the-spot", detail.clone());
+                        if w.cfg.raw_opts.is_some() {
+                            self.violate(w, "C19", "configured-value-not-applied", detail);
+                        }
                     }
                 }
                 self.entry_on_answer(w, ci, &x, &ans);
